@@ -52,9 +52,13 @@ class _Ref:
         # frames of one chunk are handled in order until the connection closes
         if self._closed():
             return
+        tr = self.s.w.transport
+        write_fails = tr is not None and tr.fail_writes is not None
         for ev in evs:
             if ev in FATAL_FRAMES:
                 return
+            if ev == E.D_PINGREQ and write_fails:
+                return  # the reply cannot be written: the connection closes here (not a graceful cause)
             if ev == E.D_DISCREQ:
                 if self.s.conn.connection_state is CONNECTED:
                     self.up(T)
